@@ -511,41 +511,90 @@ def _atom(e: ast.AST) -> Tuple[str, bool]:
     return ast.unparse(e), True
 
 
-def _bool_eval(e: ast.AST, val: Dict[str, bool]) -> bool:
+def _int_atom(e: ast.AST) -> Optional[Tuple[str, str, int]]:
+    """(term text, operator, constant) for a comparison of one term with an integer constant: `len(x) > 1`, `0 == n`."""
+    if not (isinstance(e, ast.Compare) and len(e.ops) == 1):
+        return None
+    ops = {ast.Lt: "<", ast.LtE: "<=", ast.Gt: ">", ast.GtE: ">=", ast.Eq: "==", ast.NotEq: "!="}
+    flip = {"<": ">", "<=": ">=", ">": "<", ">=": "<=", "==": "==", "!=": "!="}
+    op = ops.get(type(e.ops[0]))
+    if op is None:
+        return None
+    l, r = e.left, e.comparators[0]
+
+    def const(x):
+        if isinstance(x, ast.Constant) and isinstance(x.value, int) and not isinstance(x.value, bool):
+            return x.value
+        if isinstance(x, ast.UnaryOp) and isinstance(x.op, ast.USub) and isinstance(x.operand, ast.Constant) and isinstance(x.operand.value, int):
+            return -x.operand.value
+        return None
+
+    if const(r) is not None and const(l) is None:
+        return ast.unparse(l), op, const(r)
+    if const(l) is not None and const(r) is None:
+        return ast.unparse(r), flip[op], const(l)
+    return None
+
+
+def _cmp(v: int, op: str, c: int) -> bool:
+    return {"<": v < c, "<=": v <= c, ">": v > c, ">=": v >= c, "==": v == c, "!=": v != c}[op]
+
+
+def _bool_eval(e: ast.AST, val: Dict[str, object]) -> bool:
     if isinstance(e, ast.BoolOp):
         vs = [_bool_eval(v, val) for v in e.values]
         return all(vs) if isinstance(e.op, ast.And) else any(vs)
     if isinstance(e, ast.UnaryOp) and isinstance(e.op, ast.Not):
         return not _bool_eval(e.operand, val)
+    ia = _int_atom(e)
+    if ia is not None and ("#" + ia[0]) in val:
+        return _cmp(val["#" + ia[0]], ia[1], ia[2])
     k, pol = _atom(e)
     return val[k] == pol
 
 
-def _bool_atoms(e: ast.AST, out: Set[str]) -> None:
+def _bool_atoms(e: ast.AST, out: Set[str], ints: Optional[Dict[str, Set[int]]] = None) -> None:
     if isinstance(e, ast.BoolOp):
         for v in e.values:
-            _bool_atoms(v, out)
+            _bool_atoms(v, out, ints)
     elif isinstance(e, ast.UnaryOp) and isinstance(e.op, ast.Not):
-        _bool_atoms(e.operand, out)
+        _bool_atoms(e.operand, out, ints)
     else:
-        out.add(_atom(e)[0])
+        ia = _int_atom(e)
+        if ia is not None and ints is not None:
+            ints.setdefault(ia[0], set()).add(ia[2])
+        else:
+            out.add(_atom(e)[0])
 
 
 def conds_imply(premises: List[Tuple[ast.AST, bool]], conclusion: List[Tuple[ast.AST, bool]], max_atoms: int = 12) -> Optional[bool]:
-    """Do the premises [(test, polarity)] propositionally imply every conclusion?  Atoms are the non-boolean
-    sub-tests, identified by canonical text (so `a is b` and `b is a` are one atom).  None when too many atoms."""
+    """Do the premises [(test, polarity)] imply every conclusion?  Propositionally over the non-boolean sub-tests
+    (identified by canonical text, so `a is b` and `b is a` are one atom), except that comparisons of one term with
+    integer constants (`len(x) == 0`, `len(x) > 1`, `1 == len(x)`) are decided arithmetically: the term ranges over
+    the integers around the constants it is compared with (non-negative ones for `len(..)`).  None when too many atoms."""
     import itertools
 
     atoms: Set[str] = set()
+    ints: Dict[str, Set[int]] = {}
     for t, _p in list(premises) + list(conclusion):
-        _bool_atoms(t, atoms)
+        _bool_atoms(t, atoms, ints)
     names = sorted(atoms)
-    if len(names) > max_atoms:
+    terms = sorted(ints)
+    if len(names) + 2 * len(terms) > max_atoms:
         return None
+    ranges = []
+    for tm in terms:
+        cs = ints[tm]
+        lo, hi = min(cs) - 1, max(cs) + 1
+        vals = [v for v in range(lo, hi + 1) if not (tm.startswith("len(") and v < 0)]
+        ranges.append(vals)
     for bits in itertools.product((False, True), repeat=len(names)):
-        val = dict(zip(names, bits))
-        if all(_bool_eval(t, val) == p for t, p in premises) and not all(_bool_eval(t, val) == p for t, p in conclusion):
-            return False
+        for ivals in itertools.product(*ranges):
+            val: Dict[str, object] = dict(zip(names, bits))
+            for tm, v in zip(terms, ivals):
+                val["#" + tm] = v
+            if all(_bool_eval(t, val) == p for t, p in premises) and not all(_bool_eval(t, val) == p for t, p in conclusion):
+                return False
     return True
 
 
@@ -875,4 +924,66 @@ def module_level_state(tree: ast.Module) -> List[str]:
                 for x in ast.walk(tree))
             if written:
                 out.append(nm)
+    return out
+
+
+
+def container_contents(fn: ast.AST, cname: str, depth: int = 3):
+    """What a local container holds, by dataflow: [(key alternative or None, value alternative, conditions)].
+    Sources: `c[k] = v`, `c.append(v)` / `c.add(v)` (value and key resolved through the reaching definitions of their
+    locals, with the path conditions of the store), and `c = {k: v for k, v in src.items() if F}` / `[v for v in src if F]`
+    — an identity map of another local container: its contents, each under F with the loop variables replaced by
+    the content's own key / value."""
+    import copy as _c
+
+    out = []
+    if depth <= 0:
+        return out
+    for st in au.walk_no_nested(fn):
+        if isinstance(st, ast.Assign) and len(st.targets) == 1:
+            t = st.targets[0]
+            if isinstance(t, ast.Subscript) and isinstance(t.value, ast.Name) and t.value.id == cname:
+                pcs = path_conditions(fn, st)
+                keys = alternatives(fn, t.slice, pcs, at=st)
+                k0 = keys[0][0] if len(keys) == 1 else t.slice
+                for v, c in alternatives(fn, st.value, pcs, at=st):
+                    out.append((k0, v, resolved_conditions(fn, c)))
+            elif isinstance(t, ast.Name) and t.id == cname and isinstance(st.value, (ast.DictComp, ast.ListComp, ast.SetComp)) and len(st.value.generators) == 1:
+                g = st.value.generators[0]
+                src = g.iter
+                kind = None
+                if isinstance(src, ast.Call) and isinstance(src.func, ast.Attribute) and src.func.attr in ("items", "values") and isinstance(src.func.value, ast.Name) and not src.args:
+                    kind, sname = src.func.attr, src.func.value.id
+                elif isinstance(src, ast.Name):
+                    kind, sname = "iter", src.id
+                if kind is None:
+                    continue
+                # identity map?
+                if isinstance(st.value, ast.DictComp) and kind == "items" and isinstance(g.target, ast.Tuple) and len(g.target.elts) == 2 and all(isinstance(e, ast.Name) for e in g.target.elts):
+                    kv, vv = g.target.elts[0].id, g.target.elts[1].id
+                    if not (isinstance(st.value.key, ast.Name) and st.value.key.id == kv and isinstance(st.value.value, ast.Name) and st.value.value.id == vv):
+                        continue
+                elif isinstance(st.value, (ast.ListComp, ast.SetComp)) and isinstance(g.target, ast.Name) and isinstance(st.value.elt, ast.Name) and st.value.elt.id == g.target.id and kind in ("values", "iter"):
+                    kv, vv = None, g.target.id
+                else:
+                    continue
+                for k, v, c in container_contents(fn, sname, depth - 1):
+                    extra = []
+                    for f in g.ifs:
+                        f2 = _c.deepcopy(f)
+
+                        class S(ast.NodeTransformer):
+                            def visit_Name(self, node):
+                                if node.id == vv:
+                                    return _c.deepcopy(v)
+                                if kv is not None and node.id == kv and k is not None:
+                                    return _c.deepcopy(k)
+                                return node
+
+                        extra.append((ast.fix_missing_locations(S().visit(f2)), True))
+                    out.append((k, v, list(c) + extra))
+        elif isinstance(st, ast.Expr) and isinstance(st.value, ast.Call) and isinstance(st.value.func, ast.Attribute) and st.value.func.attr in ("append", "add") and isinstance(st.value.func.value, ast.Name) and st.value.func.value.id == cname and len(st.value.args) == 1:
+            pcs = path_conditions(fn, st)
+            for v, c in alternatives(fn, st.value.args[0], pcs, at=st):
+                out.append((None, v, resolved_conditions(fn, c)))
     return out
